@@ -15,13 +15,17 @@ sequential history of these atomic events — the histories quantified over here
 That step (mutex ⇒ atomicity) is trusted, and supported by the recorded
 concurrent runs the driver linearizes against this model.
 
-Reading of "handed to the staging store" — see Spec/C10: an add takes effect
-iff nothing is stored for the work id or the stored check block is strictly
-lower (`add_stores`, `add_keeps_higher`); from then on the result is kept
-(`kept_until`, `handed_kept`).  The stronger reading fails for the code as it
-is: an entry past its TTL but not yet collected still rejects a lower-or-equal
-add (`handedStrong_fails`), which also makes `gc` observable through later
-adds (`gc_not_transparent`), although no view changes across a `gc` (`gc_view`).
+The model is the code after `fix: result store: an expired, not yet collected entry no
+longer blocks a new result` (efb208c): `Add` treats an entry past its TTL like a missing one.
+With that, the first clause holds at full strength (`handed_kept`, and `handed` in the Spec):
+an add takes effect unless a *live* entry with an equal or higher check block is stored
+(`add_stores`, `add_keeps_higher`), a stored result is kept (`kept_until`), and the collector
+is invisible: no view changes across a `gc` (`gc_view`) and deleting every `gc` event from a
+monotone history changes no view at all (`gc_transparent`).  What remains, by design of
+"replace only by newer": a result rejected by a live higher-or-equal entry is not resurrected
+when that entry runs out of TTL before the rejected one would have (`handed_residual`).
+The pinned tree (`add1Old`) violates the clause and the transparency: `handedStrong_fails_old`,
+`gc_not_transparent_old`.
 -/
 namespace AutoVerif.C10
 
@@ -70,15 +74,19 @@ private theorem J_step {ttl : Nat} {s : Store} {pre : List Ev} (hwf : WF s) (hj 
         · simp only [Option.some.injEq] at hg
           subst hg
           exact candTimes_self r t pre
-        · rename_i hlt
-          simp only [Option.some.injEq] at hg
-          subst hg
-          refine candTimes_mono ?_ (hj w v ho)
-          apply clean_of_wid_ne
-          · intro _ _ h; cases h
-          · intro t' r' h _
-            cases h
-            omega
+        · split at hg
+          · simp only [Option.some.injEq] at hg
+            subst hg
+            exact candTimes_self r t pre
+          · rename_i hlt
+            simp only [Option.some.injEq] at hg
+            subst hg
+            refine candTimes_mono ?_ (hj w v ho)
+            apply clean_of_wid_ne
+            · intro _ _ h; cases h
+            · intro t' r' h _
+              cases h
+              omega
     · rw [if_neg hw] at hg
       refine candTimes_mono ?_ (hj w e hg)
       have hwid := get_wid hwf hg
@@ -123,6 +131,61 @@ private theorem J_run {ttl : Nat} (evs : List Ev) {s : Store} {pre : List Ev} (h
     simpa [run, List.reverse_cons, List.append_assoc] using this
 
 private theorem J_nil : J [] [] := by intro w e h; simp [get] at h
+
+/-- the stored slot is one of the excuses `domTimes` lists for any result it dominates -/
+private def K (ttl : Nat) (s : Store) (pre : List Ev) : Prop :=
+  ∀ w v, get s w = some v → ∀ b ta mx, b ≤ blk v.data → mx ≤ blk v.data → ta - v.addedAt ≤ ttl →
+    v.addedAt ∈ domTimes ttl w b ta pre mx
+
+private theorem K_nil (ttl : Nat) : K ttl [] [] := by intro w v h; simp [get] at h
+
+private theorem K_step {ttl : Nat} {s : Store} {pre : List Ev} (hwf : WF s) (hk : K ttl s pre) (x : Ev) :
+    K ttl (step ttl s x) (x :: pre) := by
+  intro w v hg b ta mx hb hmx hf
+  rw [get_step hwf] at hg
+  cases x with
+  | add t r =>
+    simp only [stepK] at hg
+    by_cases hw : r.workID = w
+    · rw [if_pos hw] at hg
+      subst hw
+      cases ho : get s r.workID with
+      | none =>
+        rw [ho] at hg
+        simp only [Option.some.injEq] at hg
+        subst hg
+        exact domTimes_self ttl r b ta mx t pre hmx hb hf
+      | some v0 =>
+        rw [ho] at hg
+        simp only at hg
+        split at hg
+        · simp only [Option.some.injEq] at hg
+          subst hg
+          exact domTimes_self ttl r b ta mx t pre hmx hb hf
+        · split at hg
+          · simp only [Option.some.injEq] at hg
+            subst hg
+            exact domTimes_self ttl r b ta mx t pre hmx hb hf
+          · simp only [Option.some.injEq] at hg
+            subst hg
+            apply domTimes_add_same rfl
+            exact hk r.workID v0 ho b ta _ hb (by omega) hf
+    · rw [if_neg hw] at hg
+      rw [domTimes_add_other hw]
+      exact hk w v hg b ta mx hb hmx hf
+  | remove t id =>
+    simp only [stepK] at hg
+    by_cases hw : id = w
+    · rw [if_pos hw] at hg; cases hg
+    · rw [if_neg hw] at hg
+      rw [domTimes_remove_other hw]
+      exact hk w v hg b ta mx hb hmx hf
+  | gc t =>
+    simp only [stepK] at hg
+    have hg' : get s w = some v := (Option.filter_eq_some_iff.mp hg).1
+    simpa [domTimes] using hk w v hg' b ta mx hb hmx hf
+  | view t out =>
+    simpa [domTimes] using hk w v hg b ta mx hb hmx hf
 
 private theorem wf_reach (ttl : Nat) (evs : List Ev) : WF (run ttl [] evs) := WF_run evs WF_nil
 
@@ -199,52 +262,61 @@ theorem expired_not_viewed (ttl : Nat) (evs : List Ev) (e : Entry)
 
 /-! ### (3) which adds take effect -/
 
-/-- a lower or equal check block never overwrites: the store is left exactly as it was
-(result, add time and every other slot), whether or not the stored entry is past its TTL -/
-theorem add_keeps_higher (s : Store) (t : Nat) (r : CheckResult) (v : Entry)
-    (hv : get s r.workID = some v) (hle : blk r ≤ blk v.data) : add1 t s r = s := by
-  simp only [add1, hv]
-  rw [if_neg (by omega)]
+/-- a lower or equal check block never overwrites a live stored result: the store is left exactly
+as it was (result, add time and every other slot) -/
+theorem add_keeps_higher (ttl : Nat) (s : Store) (t : Nat) (r : CheckResult) (v : Entry)
+    (hv : get s r.workID = some v) (hlive : t - v.addedAt ≤ ttl) (hle : blk r ≤ blk v.data) :
+    add1 ttl t s r = s := by
+  have hx : expired ttl t v = false := (expired_false_iff ttl t v).mpr hlive
+  have hnl : ¬ blk v.data < blk r := by omega
+  simp [add1, hv, hx, hnl]
 
-/-- an add takes effect iff nothing is stored for the work id or the stored block is strictly lower -/
-theorem add_stores (s : Store) (t : Nat) (r : CheckResult)
-    (h : get s r.workID = none ∨ ∃ v, get s r.workID = some v ∧ blk v.data < blk r) :
-    get (add1 t s r) r.workID = some ⟨r, t⟩ := by
+/-- an add takes effect iff nothing is stored for the work id, the stored entry is past its TTL
+(collected or not), or the stored check block is strictly lower -/
+theorem add_stores (ttl : Nat) (s : Store) (t : Nat) (r : CheckResult)
+    (h : get s r.workID = none ∨
+         ∃ v, get s r.workID = some v ∧ (t - v.addedAt > ttl ∨ blk v.data < blk r)) :
+    get (add1 ttl t s r) r.workID = some ⟨r, t⟩ := by
   rw [get_add1]
-  rcases h with h | ⟨v, hv, hlt⟩
+  rcases h with h | ⟨v, hv, hdead | hlt⟩
   · simp [stepK, h]
-  · simp [stepK, hv, hlt]
+  · simp [stepK, hv, (expired_true_iff ttl t v).mpr hdead]
+  · by_cases hx : expired ttl t v = true <;> simp [stepK, hv, hx, hlt]
 
-/-- after any add the slot holds the new result or one with a check block at least as high -/
-theorem add_stored_or_dominated (s : Store) (t : Nat) (r : CheckResult) :
-    ∃ e, get (add1 t s r) r.workID = some e ∧ blk r ≤ blk e.data ∧
-      (e = ⟨r, t⟩ ∨ get s r.workID = some e) := by
-  rw [get_add1]
+/-- after any add the slot holds the new result, or an untouched *live* entry with a check block
+at least as high -/
+theorem add_stored_or_dominated (ttl : Nat) (s : Store) (t : Nat) (r : CheckResult) :
+    get (add1 ttl t s r) r.workID = some ⟨r, t⟩ ∨
+    ∃ v, get s r.workID = some v ∧ t - v.addedAt ≤ ttl ∧ blk r ≤ blk v.data ∧ add1 ttl t s r = s := by
   cases hg : get s r.workID with
-  | none => exact ⟨⟨r, t⟩, by simp [stepK], Nat.le_refl _, Or.inl rfl⟩
+  | none => exact Or.inl (add_stores ttl s t r (Or.inl hg))
   | some v =>
-    by_cases hlt : blk v.data < blk r
-    · exact ⟨⟨r, t⟩, by simp [stepK, hlt], Nat.le_refl _, Or.inl rfl⟩
-    · exact ⟨v, by simp [stepK, hlt], by omega, Or.inr rfl⟩
+    by_cases hdead : t - v.addedAt > ttl
+    · exact Or.inl (add_stores ttl s t r (Or.inr ⟨v, hg, Or.inl hdead⟩))
+    · by_cases hlt : blk v.data < blk r
+      · exact Or.inl (add_stores ttl s t r (Or.inr ⟨v, hg, Or.inr hlt⟩))
+      · exact Or.inr ⟨v, rfl, by omega, by omega, add_keeps_higher ttl s t r v hg (by omega) (by omega)⟩
 
 /-- an add touches no other work id -/
-theorem add_other_untouched (s : Store) (t : Nat) (r : CheckResult) (w : String) (hw : r.workID ≠ w) :
-    get (add1 t s r) w = get s w := by
+theorem add_other_untouched (ttl : Nat) (s : Store) (t : Nat) (r : CheckResult) (w : String)
+    (hw : r.workID ≠ w) : get (add1 ttl t s r) w = get s w := by
   rw [get_add1]; simp [stepK, hw]
 
 /-! ### (4) a stored result stays in every view until removed / TTL / strictly higher block -/
 
-private theorem stepK_keep {ttl : Nat} {e : Entry} {x : Ev}
-    (hc : clean e.data.workID (blk e.data) x = true) (hf : x.now - e.addedAt ≤ ttl) :
-    stepK ttl e.data.workID (some e) x = some e := by
+private theorem stepK_keep {ttl : Nat} {w : String} {b : Nat} {e : Entry} {x : Ev} (hb : b ≤ blk e.data)
+    (hc : clean w b x = true) (hf : x.now - e.addedAt ≤ ttl) :
+    stepK ttl w (some e) x = some e := by
   cases x with
   | add t r =>
+    have hx : expired ttl t e = false := (expired_false_iff ttl t e).mpr hf
     simp only [stepK]
-    by_cases hw : r.workID = e.data.workID
+    by_cases hw : r.workID = w
     · rw [if_pos hw]
       simp only [clean, removes, addsHigher, hw, beq_self_eq_true, Bool.true_and, Bool.not_false,
         Bool.not_eq_true', decide_eq_false_iff_not] at hc
-      rw [if_neg hc]
+      have hnl : ¬ blk e.data < blk r := by omega
+      simp [hx, hnl]
     · rw [if_neg hw]
   | remove t id =>
     simp only [clean, removes, addsHigher, Bool.not_false, Bool.and_true, Bool.not_eq_true',
@@ -267,7 +339,7 @@ private theorem stored_stays {ttl : Nat} {e : Entry} {t : Nat} (mid : List Ev) {
       (fun y hy => hmono y (List.mem_cons_of_mem _ hy))
     rw [get_step hwf, hs]
     have := hmono x List.mem_cons_self
-    exact stepK_keep (hclean x List.mem_cons_self) (by omega)
+    exact stepK_keep (Nat.le_refl _) (hclean x List.mem_cons_self) (by omega)
 
 /-- a stored result `e.data` (slot `e` after the history `evs`) is returned by every later view
 — in whatever order the map is ranged over — as long as no event in between removes its work id
@@ -285,28 +357,56 @@ theorem kept_until (ttl : Nat) (evs mid : List Ev) (e : Entry)
   rw [run_append]
   exact stored_stays mid (wf_reach ttl evs) hst hclean hmono hfresh
 
-/-- the first clause of C10 in the reading of DESIGN §7: a result handed in while nothing is
-stored for its work id, or only a strictly lower check block (`heff`), is returned by every
-later view until it is removed, outlives the TTL or is replaced by a strictly higher check block.
+private theorem clean_weaken {w : String} {b b' : Nat} {x : Ev} (hb : b ≤ b') (h : clean w b x = true) :
+    clean w b' x = true := by
+  cases x with
+  | add t r =>
+    simp only [clean, removes, addsHigher, Bool.not_false, Bool.true_and, Bool.not_eq_true',
+      Bool.and_eq_false_iff, beq_eq_false_iff_ne, decide_eq_false_iff_not] at h ⊢
+    rcases h with h | h
+    · exact Or.inl h
+    · exact Or.inr (by omega)
+  | remove t id => simpa [clean, removes, addsHigher] using h
+  | gc t => rfl
+  | view t out => rfl
 
-Full-strength statement (no `heff`; "or a result of the same work id with a check block at least
-as high is returned"), kept visible because it is what the property text says literally:
-  `∀ evs ta r mid t out, (∀ x ∈ mid, clean r.workID (blk r) x) → (∀ x ∈ mid, x.now ≤ t) → t - ta ≤ ttl →
-     ViewOf ttl t (run ttl [] (evs ++ .add ta r :: mid)) out → ∃ r' ∈ out, r'.workID = r.workID ∧ blk r ≤ blk r'`
-It is FALSE of the code as it is (`handedStrong_fails`): what is missing is exactly `heff` — the
-stored entry that rejects `r` may be past its TTL (not yet collected) or expire before `r` would. -/
+/-- the first clause of C10 at full strength: an eligible result `r` handed to the store at `ta`
+is returned by every later view — in whatever order the map is ranged over — until its work id
+is removed, a strictly higher check block is added for it (`clean`), or it outlives the TTL
+(`hfresh`); the only exception is that `r` was dominated: at `ta` a *live* entry `v` (not past its
+TTL) with an equal or higher check block was stored, the store was left unchanged, and then `v`
+itself is returned by the view unless `v` has outlived its own TTL by then.
+
+What remains outside the clause is exactly that last case (`handed_residual`): a result rejected
+by a live higher-or-equal entry is not resurrected when that entry expires before the rejected
+result would have. -/
 theorem handed_kept (ttl : Nat) (evs mid : List Ev) (ta : Nat) (r : CheckResult)
-    (heff : get (run ttl [] evs) r.workID = none ∨
-            ∃ v, get (run ttl [] evs) r.workID = some v ∧ blk v.data < blk r)
     (hclean : ∀ x ∈ mid, clean r.workID (blk r) x = true)
     (t : Nat) (hmono : ∀ x ∈ mid, x.now ≤ t) (hfresh : t - ta ≤ ttl)
-    (out : List CheckResult) (h : ViewOf ttl t (run ttl [] (evs ++ .add ta r :: mid)) out) : r ∈ out := by
-  have hst : get (run ttl [] (evs ++ [.add ta r])) r.workID = some ⟨r, ta⟩ := by
-    rw [run_append]
-    simpa [run, step] using add_stores (run ttl [] evs) ta r heff
+    (out : List CheckResult) (h : ViewOf ttl t (run ttl [] (evs ++ .add ta r :: mid)) out) :
+    r ∈ out ∨
+    ∃ v, get (run ttl [] evs) r.workID = some v ∧ ta - v.addedAt ≤ ttl ∧ blk r ≤ blk v.data ∧
+      (v.data ∈ out ∨ t - v.addedAt > ttl) := by
   have h' : ViewOf ttl t (run ttl [] ((evs ++ [.add ta r]) ++ mid)) out := by
     simpa [List.append_assoc] using h
-  exact kept_until ttl (evs ++ [.add ta r]) mid ⟨r, ta⟩ hst hclean t hmono hfresh out h'
+  have hrun : run ttl [] (evs ++ [.add ta r]) = add1 ttl ta (run ttl [] evs) r := by
+    rw [run_append]; rfl
+  rcases add_stored_or_dominated ttl (run ttl [] evs) ta r with hst | ⟨v, hv, hlive, hle, hsame⟩
+  · left
+    have hst' : get (run ttl [] (evs ++ [.add ta r])) r.workID = some ⟨r, ta⟩ := by rw [hrun]; exact hst
+    exact kept_until ttl (evs ++ [.add ta r]) mid ⟨r, ta⟩ hst' hclean t hmono hfresh out h'
+  · right
+    refine ⟨v, hv, hlive, hle, ?_⟩
+    by_cases hdead : t - v.addedAt > ttl
+    · exact Or.inr hdead
+    · left
+      have hwid : v.data.workID = r.workID := get_wid (wf_reach ttl evs) hv
+      have hst' : get (run ttl [] (evs ++ [.add ta r])) v.data.workID = some v := by
+        rw [hrun, hsame, hwid]; exact hv
+      refine kept_until ttl (evs ++ [.add ta r]) mid v hst' ?_ t hmono (by omega) out h'
+      intro x hx
+      rw [hwid]
+      exact clean_weaken hle (hclean x hx)
 
 /-! ### (5) garbage collection -/
 
@@ -391,6 +491,71 @@ theorem gcOrd_eq_gc (ttl now : Nat) (evs : List Ev) (ord : List String)
   have : p.1 ∈ ord := hall p.1 (List.mem_map.mpr ⟨p, hp, rfl⟩)
   simp [this]
 
+private theorem strip_aux (ttl : Nat) :
+    ∀ (evs : List Ev) (s s' : Store) (lo : Nat), WF s → WF s' →
+      (∀ w, liveO ttl lo (get s w) = liveO ttl lo (get s' w)) → (∀ x ∈ evs, lo ≤ x.now) → Mono evs →
+      ∀ t, lo ≤ t → (∀ x ∈ evs, x.now ≤ t) →
+      ∀ w, liveO ttl t (get (run ttl s evs) w) = liveO ttl t (get (run ttl s' (stripGc evs)) w) := by
+  intro evs
+  induction evs with
+  | nil =>
+    intro s s' lo _ _ heq _ _ t hlt _ w
+    have := congrArg (liveO ttl t) (heq w)
+    simpa [run, stripGc, liveO_liveO hlt] using this
+  | cons x evs ih =>
+    intro s s' lo hwf hwf' heq hlo hmono t hlt hle w
+    have hlx : lo ≤ x.now := hlo x List.mem_cons_self
+    have hmono' : Mono evs := by
+      simp only [Mono, List.map_cons, List.pairwise_cons] at hmono; exact hmono.2
+    have hlo' : ∀ y ∈ evs, x.now ≤ y.now := by
+      simp only [Mono, List.map_cons, List.pairwise_cons] at hmono
+      intro y hy
+      exact hmono.1 y.now (List.mem_map.mpr ⟨y, hy, rfl⟩)
+    have hxt : x.now ≤ t := hle x List.mem_cons_self
+    have hle' : ∀ y ∈ evs, y.now ≤ t := fun y hy => hle y (List.mem_cons_of_mem _ hy)
+    have heqx : ∀ w, liveO ttl x.now (get s w) = liveO ttl x.now (get s' w) := by
+      intro w
+      have := congrArg (liveO ttl x.now) (heq w)
+      simpa [liveO_liveO hlx] using this
+    by_cases hgc : ∃ tg, x = .gc tg
+    · obtain ⟨tg, rfl⟩ := hgc
+      have hstrip : stripGc (.gc tg :: evs) = stripGc evs := by simp [stripGc]
+      rw [hstrip]
+      have hrun : run ttl s (.gc tg :: evs) = run ttl (step ttl s (.gc tg)) evs := rfl
+      rw [hrun]
+      refine ih (step ttl s (.gc tg)) s' tg (WF_step hwf _) hwf' ?_ hlo' hmono' t hxt hle' w
+      intro w
+      rw [get_step hwf, liveO_gc]
+      exact heqx w
+    · have hstrip : stripGc (x :: evs) = x :: stripGc evs := by
+        cases x with
+        | gc tg => exact absurd ⟨tg, rfl⟩ hgc
+        | add _ _ => simp [stripGc]
+        | remove _ _ => simp [stripGc]
+        | view _ _ => simp [stripGc]
+      rw [hstrip]
+      have hrun : run ttl s (x :: evs) = run ttl (step ttl s x) evs := rfl
+      have hrun' : run ttl s' (x :: stripGc evs) = run ttl (step ttl s' x) (stripGc evs) := rfl
+      rw [hrun, hrun']
+      refine ih (step ttl s x) (step ttl s' x) x.now (WF_step hwf _) (WF_step hwf' _) ?_ hlo' hmono' t hxt hle' w
+      intro w
+      rw [get_step hwf, get_step hwf', liveO_stepK ttl w (get s w), liveO_stepK ttl w (get s' w), heqx w]
+
+/-- the collector is invisible: deleting every `gc` event from a history with a non-decreasing
+clock changes no view taken at or after its last event — also across later adds (this is what
+the pinned tree did not have, `gc_not_transparent_old`).  Two histories that differ only in
+their `gc` events therefore give the same views. -/
+theorem gc_transparent (ttl : Nat) (evs : List Ev) (hmono : Mono evs) (t : Nat) (ht : ∀ x ∈ evs, x.now ≤ t) :
+    (view ttl t (run ttl [] evs)).Perm (view ttl t (run ttl [] (stripGc evs))) := by
+  have hwf := wf_reach ttl evs
+  have hwf' := wf_reach ttl (stripGc evs)
+  have hk := strip_aux ttl evs [] [] 0 WF_nil WF_nil (fun _ => rfl) (fun _ _ => Nat.zero_le _) hmono t
+    (Nat.zero_le _) ht
+  apply (List.perm_ext_iff_of_nodup (nodup_of_map _ (view_wids_nodup hwf))
+    (nodup_of_map _ (view_wids_nodup hwf'))).mpr
+  intro r
+  rw [mem_view_live hwf, mem_view_live hwf', hk r.workID]
+
 /-- with the constants of the code as it is now: once `gcInterval` has passed since an entry
 outlived `storeTTL`, a tick of the collector goroutine (`start + k·gcInterval`) has removed it —
 the window in which a dead entry can still reject adds is at most `gcInterval` -/
@@ -439,7 +604,7 @@ private theorem kept_aux (ttl : Nat) (e : Entry) (cands : List Nat) (hc : e.adde
         · by_cases hf : x.now - e.addedAt ≤ ttl
           · left
             rw [get_step hwf, hst]
-            exact stepK_keep hcl hf
+            exact stepK_keep (Nat.le_refl _) hcl hf
           · right; omega
         · right; omega
       have hrec := ih (step ttl s x) x.now (WF_step hwf x) hconf.2 hmono' hlo' hst'
@@ -462,17 +627,70 @@ private theorem kept_aux (ttl : Nat) (e : Entry) (cands : List Nat) (hc : e.adde
       | gc t => rfl
     next => rfl
 
-private theorem specGo_ok (ttl : Nat) :
-    ∀ (rest : List Ev) (s : Store) (pre : List Ev), WF s → J s pre → Conforms ttl s rest → Mono rest →
-      specGo ttl pre rest = true := by
+private theorem handed_aux (ttl : Nat) (r : CheckResult) (ta : Nat) (doms : List Nat) :
+    ∀ (rest : List Ev) (s : Store) (lo : Nat), WF s → Conforms ttl s rest → Mono rest →
+      (∀ x ∈ rest, lo ≤ x.now) →
+      ((∃ e, get s r.workID = some e ∧ blk r ≤ blk e.data ∧ e.addedAt ∈ ta :: doms) ∨
+       (∃ a ∈ ta :: doms, lo - a > ttl)) →
+      handedFwd ttl r ta doms rest = true := by
   intro rest
   induction rest with
   | nil => intros; rfl
   | cons x rest ih =>
-    intro s pre hwf hj hconf hmono
+    intro s lo hwf hconf hmono hlo hst
+    simp only [handedFwd]
+    split
+    next hcl =>
+      have hlx : lo ≤ x.now := hlo x List.mem_cons_self
+      have hmono' : Mono rest := by
+        simp only [Mono, List.map_cons, List.pairwise_cons] at hmono; exact hmono.2
+      have hlo' : ∀ y ∈ rest, x.now ≤ y.now := by
+        simp only [Mono, List.map_cons, List.pairwise_cons] at hmono
+        intro y hy
+        exact hmono.1 y.now (List.mem_map.mpr ⟨y, hy, rfl⟩)
+      have hst' : (∃ e, get (step ttl s x) r.workID = some e ∧ blk r ≤ blk e.data ∧ e.addedAt ∈ ta :: doms) ∨
+          (∃ a ∈ ta :: doms, x.now - a > ttl) := by
+        rcases hst with ⟨e, hg, hb, ha⟩ | ⟨a, ha, hd⟩
+        · by_cases hf : x.now - e.addedAt ≤ ttl
+          · left
+            refine ⟨e, ?_, hb, ha⟩
+            rw [get_step hwf, hg]
+            exact stepK_keep hb hcl hf
+          · right; exact ⟨e.addedAt, ha, by omega⟩
+        · right; exact ⟨a, ha, by omega⟩
+      have hrec := ih (step ttl s x) x.now (WF_step hwf x) hconf.2 hmono' hlo' hst'
+      rw [hrec, Bool.and_true]
+      cases x with
+      | view t out =>
+        simp only [Ev.now] at hlx
+        simp only [Bool.or_eq_true, List.any_eq_true, Bool.and_eq_true, beq_iff_eq, decide_eq_true_eq,
+          Bool.not_eq_true', fresh, decide_eq_false_iff_not]
+        rcases hst with ⟨e, hg, hb, ha⟩ | ⟨a, ha, hd⟩
+        · by_cases hf : t - e.addedAt ≤ ttl
+          · left
+            have hwid : e.data.workID = r.workID := get_wid hwf hg
+            have hv : e.data ∈ view ttl t s :=
+              (mem_view hwf e.data).mpr ⟨e, by rw [hwid]; exact hg, rfl, (expired_false_iff ttl t e).mpr hf⟩
+            have hperm : out.Perm (view ttl t s) := hconf.1
+            exact ⟨e.data, (List.Perm.mem_iff hperm).mpr hv, hwid, hb⟩
+          · right; exact ⟨e.addedAt, ha, hf⟩
+        · right; exact ⟨a, ha, by omega⟩
+      | add t r' => rfl
+      | remove t id => rfl
+      | gc t => rfl
+    next => rfl
+
+private theorem specGo_ok (ttl : Nat) :
+    ∀ (rest : List Ev) (s : Store) (pre : List Ev), WF s → J s pre → K ttl s pre → Conforms ttl s rest →
+      Mono rest → specGo ttl pre rest = true := by
+  intro rest
+  induction rest with
+  | nil => intros; rfl
+  | cons x rest ih =>
+    intro s pre hwf hj hk hconf hmono
     have hmono' : Mono rest := by
       simp only [Mono, List.map_cons, List.pairwise_cons] at hmono; exact hmono.2
-    have hrec := ih (step ttl s x) (x :: pre) (WF_step hwf x) (J_step hwf hj x) hconf.2 hmono'
+    have hrec := ih (step ttl s x) (x :: pre) (WF_step hwf x) (J_step hwf hj x) (K_step hwf hk x) hconf.2 hmono'
     simp only [specGo, hrec, Bool.and_true]
     cases x with
     | view t out =>
@@ -498,7 +716,16 @@ private theorem specGo_ok (ttl : Nat) :
         have := kept_aux ttl e (candTimes r pre) hc rest s 0 hwf hconf.2 hmono' (fun _ _ => Nat.zero_le _)
           (Or.inl (by rw [he]; exact hg))
         rwa [he] at this
-    | add t r => rfl
+    | add t r =>
+      simp only [addOk]
+      refine handed_aux ttl r t _ rest (step ttl s (.add t r)) 0 (WF_step hwf _) hconf.2 hmono'
+        (fun _ _ => Nat.zero_le _) (Or.inl ?_)
+      have hstep : step ttl s (.add t r) = add1 ttl t s r := rfl
+      rw [hstep]
+      rcases add_stored_or_dominated ttl s t r with hst | ⟨v, hv, hlive, hle, hsame⟩
+      · exact ⟨⟨r, t⟩, hst, Nat.le_refl _, List.mem_cons_self⟩
+      · rw [hsame]
+        exact ⟨v, hv, hle, List.mem_cons_of_mem _ (hk r.workID v hv (blk r) t 0 hle (Nat.zero_le _) hlive)⟩
     | remove t id => rfl
     | gc t => rfl
 
@@ -507,7 +734,7 @@ views holds of every history whose views are ones the model allows, for every TT
 number of work ids, check-block order and clock (non-decreasing) -/
 theorem conforms_spec (ttl : Nat) (evs : List Ev) (hmono : Mono evs) (hconf : Conforms ttl [] evs) :
     spec ttl evs = true :=
-  specGo_ok ttl evs [] [] WF_nil J_nil hconf hmono
+  specGo_ok ttl evs [] [] WF_nil J_nil (K_nil ttl) hconf hmono
 
 /-- the executable comparison of the driver implies `Conforms` -/
 theorem conformsB_sound (ttl : Nat) (evs : List Ev) (s : Store) (h : conformsB ttl s evs = true) :
@@ -554,10 +781,10 @@ theorem model_spec (ttl : Nat) (evs : List Ev) (hmono : Mono evs) :
 /-! ### multi-result calls and the two callers are sequences of atomic events -/
 
 theorem add_is_events (ttl now : Nat) (s : Store) (rs : List CheckResult) :
-    add now s rs = run ttl s (rs.map (Ev.add now)) := by
+    add ttl now s rs = run ttl s (rs.map (Ev.add now)) := by
   induction rs generalizing s with
   | nil => rfl
-  | cons r rs ih => simpa [add, run, step] using ih (add1 now s r)
+  | cons r rs ih => simpa [add, run, step] using ih (add1 ttl now s r)
 
 theorem remove_is_events (ttl now : Nat) (s : Store) (ids : List String) :
     remove s ids = run ttl s (ids.map (Ev.remove now)) := by
@@ -565,35 +792,52 @@ theorem remove_is_events (ttl now : Nat) (s : Store) (ids : List String) :
   | nil => rfl
   | cons r rs ih => simpa [remove, run, step] using ih (remove1 s r)
 
-/-! ### what does NOT hold of the code as it is (witnesses) -/
+/-! ### the residual case, and the pinned tree (witnesses) -/
 
 private def res (w : String) (b : Nat) : CheckResult :=
   { pes := 0, retryable := false, eligible := true, reason := 0, upkeepID := "u", trigger := ⟨b, "h", none⟩,
     workID := w, gas := 1, performData := "", fastGasWei := none, linkNative := none }
 
-/-- witness history: `w@10` staged at 0; one ns past the TTL (before the first collector tick
-that can see it) `w@5` is handed in and silently dropped; the next view is empty although
-`w@5` was handed in 0 ns ago -/
+/-- `w@10` staged at 0; `w@5` handed in at 7 while `w@10` is live — rejected; `w@10` is viewed up
+to its TTL and then nothing is, although `w@5` is only `ttl - 6` ns old -/
+private def residualTrace : List Ev :=
+  [.add 0 (res "w" 10), .add 7 (res "w" 5), .view Gen.storeTTLNs [res "w" 10], .view (Gen.storeTTLNs + 1) []]
+
+/-- what remains outside the first clause (the exception in `handed_kept` is needed): a result
+rejected by a live entry with an equal or higher check block is not resurrected when that entry
+expires first.  The history is one the model allows and satisfies `spec` (the entry that
+dominated is the excuse); without the excuse the clause fails (`handedStrict`). -/
+theorem handed_residual :
+    conformsB Gen.storeTTLNs [] residualTrace = true ∧ monoB residualTrace = true ∧
+    spec Gen.storeTTLNs residualTrace = true ∧ handedStrict Gen.storeTTLNs residualTrace = false := by
+  decide
+
+/-- witness history for the pinned tree: `w@10` staged at 0; one ns past the TTL (before the
+first collector tick that can see it) `w@5` is handed in and silently dropped; the next view is
+empty although `w@5` was handed in 0 ns ago and no live entry dominates it -/
 private def gapTrace : List Ev :=
   [.add 0 (res "w" 10), .add (Gen.storeTTLNs + 1) (res "w" 5), .view (Gen.storeTTLNs + 1) []]
 
-/-- the stronger reading of "handed to the store … returned by every later view" is false of
-the model (and, by the correspondence runs, of the code): an entry past its TTL but not yet
-collected still rejects a lower-or-equal add.  The history is one the model allows and
-satisfies `spec`. -/
-theorem handedStrong_fails :
-    conformsB Gen.storeTTLNs [] gapTrace = true ∧ monoB gapTrace = true ∧
-    spec Gen.storeTTLNs gapTrace = true ∧ handedStrong Gen.storeTTLNs gapTrace = false := by
+/-- the pinned tree (before efb208c) violates the first clause: its own trace of the witness
+history (`conformsBOld`) fails `spec` with the `handed` conjunct, and the fixed model does not
+allow that trace — it shows `w@5`. -/
+theorem handedStrong_fails_old :
+    conformsBOld Gen.storeTTLNs [] gapTrace = true ∧ monoB gapTrace = true ∧
+    spec Gen.storeTTLNs gapTrace = false ∧
+    explain Gen.storeTTLNs gapTrace =
+      "add dropped although no live entry with an equal or higher check block was stored" ∧
+    conformsB Gen.storeTTLNs [] gapTrace = false ∧
+    view Gen.storeTTLNs (Gen.storeTTLNs + 1) (run Gen.storeTTLNs [] gapTrace) = [res "w" 5] := by
   decide
 
-/-- `gc` is observable through later adds: the same add / view after a collection at the same
-instant gives a different view -/
-theorem gc_not_transparent :
+/-- in the pinned tree `gc` was observable through later adds: the same add / view after a
+collection at the same instant gave a different view (contrast `gc_transparent`) -/
+theorem gc_not_transparent_old :
     view Gen.storeTTLNs (Gen.storeTTLNs + 1)
-      (run Gen.storeTTLNs [] [.add 0 (res "w" 10), .gc (Gen.storeTTLNs + 1), .add (Gen.storeTTLNs + 1) (res "w" 5)])
+      (runOld Gen.storeTTLNs [] [.add 0 (res "w" 10), .gc (Gen.storeTTLNs + 1), .add (Gen.storeTTLNs + 1) (res "w" 5)])
       = [res "w" 5] ∧
     view Gen.storeTTLNs (Gen.storeTTLNs + 1)
-      (run Gen.storeTTLNs [] [.add 0 (res "w" 10), .add (Gen.storeTTLNs + 1) (res "w" 5)]) = [] := by
+      (runOld Gen.storeTTLNs [] [.add 0 (res "w" 10), .add (Gen.storeTTLNs + 1) (res "w" 5)]) = [] := by
   decide
 
 /-! ### non-vacuity -/
@@ -615,22 +859,32 @@ example : ∀ x ∈ [Ev.add 32 (res "a" 9), Ev.gc 33], ∀ t r, x = .add t r →
 -- `kept_until` / `handed_kept`: hypotheses met with lower and equal adds, a collection and a view in between
 example : (∀ x ∈ [Ev.add 9 (res "a" 7), .add 10 (res "a" 2), .add 11 (res "c" 99), .gc 60, .view 61 [], .remove 62 "c"],
     clean "a" 7 x = true) ∧ 105 - 5 ≤ 100 := by decide
--- `add_keeps_higher` / `add_stores`: both branches occur
-example : blk (res "a" 6) ≤ blk (res "a" 7) ∧ blk (res "a" 7) < blk (res "a" 8) := by decide
--- `gcOrd_eq_gc`: two visiting orders, one with a repeat
+-- `handed_kept`: both disjuncts occur — `a@9` over a dead `a@7` takes effect; `a@6` under the live `a@7` is dominated
+example : view 100 200 (run 100 [] (h1 ++ [.add 200 (res "a" 6)])) = [res "a" 6] ∧
+    view 100 50 (run 100 [] (h1 ++ [.add 50 (res "a" 6)])) = [res "a" 7] := by decide
+-- `add_keeps_higher` / `add_stores`: all branches occur
+example : blk (res "a" 6) ≤ blk (res "a" 7) ∧ blk (res "a" 7) < blk (res "a" 8) ∧ 50 - 5 ≤ 100 ∧ 200 - 5 > 100 := by decide
+-- `gcOrd_eq_gc`: a visiting order with a repeat and a foreign key
 example : gcOrd 100 200 (run 100 [] h1) ["a", "zz", "a"] = [] ∧ keys (run 100 [] h1) = ["a"] := by decide
+-- `gc_transparent`: a monotone history whose collector events matter for the store but not for any view
+example : monoB (h1 ++ [.gc 200, .add 200 (res "a" 6)]) = true ∧
+    run 100 [] (h1 ++ [.gc 200]) ≠ run 100 [] (stripGc (h1 ++ [.gc 200])) ∧
+    view 100 200 (run 100 [] (h1 ++ [.gc 200, .add 200 (res "a" 6)])) =
+      view 100 200 (run 100 [] (stripGc (h1 ++ [.gc 200, .add 200 (res "a" 6)]))) := by decide
 -- `dead_entry_collected_within_interval`: hypotheses are satisfiable
 example : (0 : Nat) ≤ 5 + Gen.storeTTLNs ∧ 5 + Gen.storeTTLNs + Gen.gcIntervalNs ≤ 400000000000 := by decide
 -- `conforms_spec` / `model_spec`: a history with views that exercises every clause
 private def h2 : List Ev :=
   [.add 1 (res "a" 7), .add 1 (res "b" 1), .view 2 [res "b" 1, res "a" 7], .add 3 (res "a" 7), .add 4 (res "a" 5),
    .view 50 [res "a" 7, res "b" 1], .gc 60, .remove 61 "b", .view 101 [res "a" 7], .view 102 [], .add 103 (res "a" 1),
-   .view 104 []]
+   .view 104 [res "a" 1]]
 example : conformsB 100 [] h2 = true ∧ monoB h2 = true ∧ spec 100 h2 = true := by decide
--- the predicate is not trivially true: dropping a stored result early, or keeping an expired one, fails it
+-- the predicate is not trivially true: each clause rejects something
 example : spec 100 [.add 1 (res "a" 7), .view 2 [res "a" 7], .view 3 []] = false := by decide
 example : spec 100 [.add 1 (res "a" 7), .view 102 [res "a" 7]] = false := by decide
 example : spec 100 [.add 1 (res "a" 7), .add 2 (res "a" 9), .view 3 [res "a" 7]] = false := by decide
 example : spec 100 [.add 1 (res "a" 7), .add 2 (res "a" 7), .view 3 [res "a" 7, res "a" 7]] = false := by decide
+example : spec 100 [.add 1 (res "a" 7), .view 102 [], .add 103 (res "a" 1), .view 104 []] = false := by decide
+example : spec 100 [.add 1 (res "a" 7), .view 2 []] = false := by decide
 
 end AutoVerif.C10
